@@ -8,13 +8,14 @@ CBMC_FLAGS = ['--unwinding-assertions', '--signed-overflow-check', '--undefined-
 
 def harness_path(cfile): return os.path.join(VERIF, 'harness', cfile)
 
-def harnesses(cfile):
+def harnesses(cfile, tier='thorough'):
     """// HARNESS name=<fn> unwind=<n> [exit_ok=1] [timeout=<s>] [key=<finding key>] [solver=cadical|kissat]"""
     out = []
     for ln in open(harness_path(cfile)):
         m = re.match(r'\s*//\s*HARNESS\s+(.*)', ln)
         if m:
             d = dict(kv.split('=', 1) for kv in m.group(1).split())
+            if d.get('tier', 'quick') == 'thorough' and tier != 'thorough': continue
             out.append(d)
     return out
 
